@@ -254,7 +254,7 @@ int main (int argc, char **argv)
     CELL (float, int, floats<float> ()); CELL (double, int, floats<double> ());
     { std::vector<short> sh = ints<short> (); CELL (int, float, std::vector<int> (sh.begin (), sh.end ())); }
     CELL (int, double, ints<int> ()); CELL (float, double, floats<float> ()); CELL (double, float, floats<double> ()); CELL (double, long long, floats<double> ());
-    CELL (float, unsigned, std::vector<float> (floats<float> ().begin () + 7, floats<float> ().begin () + 8)); CELL (unsigned, float, std::vector<unsigned> (6, 16777216u));
+    CELL (float, unsigned, std::vector<float> (5, 65535.5f)); CELL (unsigned, float, std::vector<unsigned> (6, 16777216u));
     CELL (long long, double, std::vector<long long> (5, 1ll << 40)); CELL (float, short, std::vector<float> (4, 100.5f));
   }
 #endif
